@@ -17,7 +17,7 @@ CLANG_FLAGS = ['-std=c++20', '-O1', '-fno-inline', '-fno-vectorize', '-fno-slp-v
                '-DNDEBUG', '-DLOG_LEVEL=0', '-S', '-emit-llvm', '-w']
 GXX_FLAGS = ['-std=c++20', '-O1', '-DNDEBUG', '-DLOG_LEVEL=0', '-w']
 CBMC_FLAGS = ['--unwinding-assertions', '--drop-unused-functions', '--undefined-shift-check', '--signed-overflow-check',
-              '--no-malloc-may-fail', '--verbosity', '6']
+              '--no-malloc-may-fail', '--object-bits', '12', '--verbosity', '6']
 
 
 DEFAULT_UNWIND = 5
